@@ -75,6 +75,14 @@ class Event:
         self.args = tuple(args)
         self.kwargs = dict(kwargs)
         self.result = result
+        self.loop = []        # enclosing invariant loops: (index term, lo, hi, loop key)
+        self.cond = []        # path conditions (inside the loop body) under which the call happens
+
+    def in_loop(self, info, cond):
+        e = Event(self.label, self.recv, self.args, self.kwargs, self.result)
+        e.loop = [info] + list(self.loop)
+        e.cond = list(cond) + list(self.cond)
+        return e
 
     def __repr__(self):
         return 'Event(%s recv=%s args=%s kw=%s)' % (self.label, self.recv, self.args, self.kwargs)
